@@ -292,6 +292,14 @@ void janet_async_in_flight(JanetFiber *fiber) {
 
 void janet_async_start_fiber(JanetFiber *fiber, JanetStream *stream, JanetAsyncMode mode, JanetEVCallback callback, void *state) {
     janet_assert(!fiber->ev_callback, "double async on fiber");
+    /* A stream has one reader slot and one writer slot. Taking over a slot that another
+     * fiber is still waiting in would leave that fiber suspended forever. */
+    if (((mode & JANET_ASYNC_LISTEN_READ) && stream->read_fiber && stream->read_fiber != fiber && stream->read_fiber->ev_callback) ||
+            ((mode & JANET_ASYNC_LISTEN_WRITE) && stream->write_fiber && stream->write_fiber != fiber && stream->write_fiber->ev_callback)) {
+        janet_free(state);
+        fiber->sched_id++; /* drop a timeout that was registered for this operation */
+        janet_panic("cannot listen for duplicate event on stream");
+    }
     if (mode & JANET_ASYNC_LISTEN_READ) {
         stream->read_fiber = fiber;
     }
